@@ -1,5 +1,138 @@
-(* C12 — placeholder; the theorems are added as BT/*Proofs.v land *)
+(* C12 — Bigtable CheckAndMutateRow: the predicate is evaluated on the row's current content, exactly
+   the selected mutation list is applied, atomically.  Only statements here; proofs are in
+   BT/CamProofs.v (over the sequential model Server.step, table present). *)
 From Coq Require Import List NArith ZArith Bool.
-From Emu.BT Require Import Types Mutate Server.
-Example C12_model_runs : snd (step nil (mkCall (BGetTable nil) 0%Z nil)) = fail cNotFound.
-Proof. reflexivity. Qed.
+Import ListNotations.
+From Emu.Common Require Import Bytes Str StrProofs.
+From Emu.BT Require Import Types Regex Mutate Filter Server FilterSpec CellSpec CamProofs.
+Local Open Scope Z_scope.
+
+(* the verdict: with a (valid) predicate, "matched" iff evaluating it on the row's current content
+   leaves at least one cell *)
+Theorem C12_cam_matched_iff : forall s tbl t key p tm fm now coins b,
+  alookup tbl s = Some t -> fvalid p = true ->
+  br_body (snd (step s (cam_call tbl key (Some p) tm fm now coins))) = YMatched b ->
+  b = (let '(m, nfs, _) := feval key p (get_row t key) coins in m && negb (is_empty_fams nfs))
+  /\ (b = true <-> let '(m, nfs, _) := feval key p (get_row t key) coins in m = true /\ flatten nfs <> []).
+Proof. exact cam_matched_iff. Qed.
+Print Assumptions C12_cam_matched_iff.
+
+(* without a predicate, "matched" iff the row has a cell *)
+Theorem C12_cam_matched_nopred_iff : forall s tbl t key tm fm now coins b,
+  alookup tbl s = Some t ->
+  br_body (snd (step s (cam_call tbl key None tm fm now coins))) = YMatched b ->
+  (b = true <-> flatten (get_row t key) <> []).
+Proof. exact cam_matched_nopred_iff. Qed.
+Print Assumptions C12_cam_matched_nopred_iff.
+
+(* the answer is that verdict or the error Unknown, nothing else *)
+Theorem C12_cam_response_shape : forall s tbl t key pred tm fm now coins,
+  alookup tbl s = Some t -> pred_valid pred = true ->
+  let r := snd (step s (cam_call tbl key pred tm fm now coins)) in
+  r = ok (YMatched (cam_which key pred (get_row t key) coins)) \/ r = fail cUnknown.
+Proof. exact cam_response_shape. Qed.
+Print Assumptions C12_cam_response_shape.
+
+(* the verdict is what ReadRows of that single key with the same filter (same coins, no limit)
+   shows: the row is returned iff matched *)
+Theorem C12_cam_matches_readrows : forall s tbl t key p now coins,
+  alookup tbl s = Some t -> row_stored t key -> fvalid p = true ->
+  let b := cam_which key (Some p) (get_row t key) coins in
+  let filtered := snd (fst (feval key p (get_row t key) coins)) in
+  step s (mkCall (BReadRows tbl [key] [] (Some p) 0) now coins)
+  = (s, ok (YRows (if b then [mkRow key (scrub_fams (t_fams t) filtered)] else []))).
+Proof. exact cam_matches_readrows. Qed.
+Print Assumptions C12_cam_matches_readrows.
+
+Theorem C12_cam_matched_iff_readrows : forall s tbl t key p tm fm now now' coins b,
+  alookup tbl s = Some t -> row_stored t key -> fvalid p = true ->
+  br_body (snd (step s (cam_call tbl key (Some p) tm fm now coins))) = YMatched b ->
+  exists rows, snd (step s (mkCall (BReadRows tbl [key] [] (Some p) 0) now' coins)) = ok (YRows rows)
+    /\ (b = true <-> exists r, rows = [r] /\ row_key r = key /\ row_fams r <> [])
+    /\ (b = false <-> rows = []).
+Proof. exact cam_matched_iff_readrows. Qed.
+Print Assumptions C12_cam_matched_iff_readrows.
+
+(* every table satisfying the representation invariant stores its rows in that form *)
+Theorem C12_table_ok_row_stored : forall t key, table_ok t -> row_stored t key.
+Proof. exact table_ok_row_stored. Qed.
+Print Assumptions C12_table_ok_row_stored.
+
+(* the new state is exactly MutateRow's with the selected list, from the same state and clock;
+   same status code; on error nothing changes *)
+Theorem C12_cam_applies_selected_branch : forall s tbl t key pred tm fm now coins,
+  alookup tbl s = Some t -> pred_valid pred = true ->
+  let b := cam_which key pred (get_row t key) coins in
+  let '(s1, r1) := step s (cam_call tbl key pred tm fm now coins) in
+  let '(s2, r2) := step s (mkCall (BMutateRow tbl key (if b then tm else fm)) now coins) in
+  s1 = s2 /\ br_code r1 = br_code r2
+  /\ (br_code r1 = cOK -> r1 = ok (YMatched b) /\ r2 = ok YNone)
+  /\ (br_code r1 <> cOK -> r1 = fail cUnknown /\ r2 = fail cUnknown /\ s1 = s).
+Proof. exact cam_applies_selected_branch. Qed.
+Print Assumptions C12_cam_applies_selected_branch.
+
+(* errors are atomic, and only the predicate and the SELECTED list can cause one *)
+Theorem C12_cam_error_atomic : forall s tbl t key pred tm fm now coins,
+  alookup tbl s = Some t ->
+  let b := cam_which key pred (get_row t key) coins in
+  let '(s1, r1) := step s (cam_call tbl key pred tm fm now coins) in
+  (pred_valid pred = false -> r1 = fail cInvalidArgument /\ s1 = s)
+  /\ (pred_valid pred = true -> forallb (mutation_ok (t_fams t) now) (if b then tm else fm) = false ->
+      r1 = fail cUnknown /\ s1 = s)
+  /\ (pred_valid pred = true -> forallb (mutation_ok (t_fams t) now) (if b then tm else fm) = true ->
+      r1 = ok (YMatched b)).
+Proof. exact cam_error_atomic. Qed.
+Print Assumptions C12_cam_error_atomic.
+
+(* "invalid mutation" is a property of the mutation, the table's families and the clock only *)
+Theorem C12_mutations_fail_iff : forall tf now ms fs,
+  apply_mutations tf now fs ms = None <-> forallb (mutation_ok tf now) ms = false.
+Proof. intros tf now ms fs. apply apply_mutations_none_iff. Qed.
+Print Assumptions C12_mutations_fail_iff.
+
+(* the list that is not selected may contain anything *)
+Theorem C12_cam_other_branch_irrelevant : forall s tbl t key pred tm fm other now coins,
+  alookup tbl s = Some t ->
+  let b := cam_which key pred (get_row t key) coins in
+  step s (cam_call tbl key pred tm fm now coins)
+  = step s (cam_call tbl key pred (if b then tm else other) (if b then other else fm) now coins).
+Proof. exact cam_other_branch_irrelevant. Qed.
+Print Assumptions C12_cam_other_branch_irrelevant.
+
+(* ---- non-vacuity: table "t" with family "f", row "k" = { f:q @1000 "v" } ---- *)
+Definition c12_t : table :=
+  mkTable [(H 0x0166, None)]
+          [(H 0x016b, [mkFam (H 0x0166) [mkCol (H 0x0171) [mkCell 1000 (H 0x0176) []]]])].
+Definition c12_s : server := [(H 0x0174, c12_t)].
+Definition c12_pred : rfilter := FChain [FValueRegex (RxOk (RLit 118)); FCellsPerRowLimit 1].   (* value == "v" *)
+Definition c12_tm := [SetCell (H 0x0166) (H 0x0172) 2000 (H 0x0131)].
+Definition c12_bad := [SetCell (H 0x017a) (H 0x0172) 2000 (H 0x0131)].                          (* unknown family *)
+
+Example C12_nonvacuous_hyps :
+  alookup (H 0x0174) c12_s = Some c12_t /\ row_stored c12_t (H 0x016b) /\ table_ok c12_t
+  /\ fvalid c12_pred = true.
+Proof.
+  assert (T : table_ok c12_t).
+  { split; [apply as_one|]. constructor; [|constructor]. split; [|discriminate]. split.
+    - split; [repeat constructor; cbn; tauto|]. repeat constructor; cbn; tauto.
+    - repeat constructor; cbn; try discriminate; tauto. }
+  split; [reflexivity|]. split; [apply table_ok_row_stored, T|]. split; [exact T|reflexivity].
+Qed.
+
+(* matched: the true-list is applied (an invalid false-list does not matter) and ReadRows shows the row *)
+Example C12_nonvacuous_matched :
+  let '(s1, r1) := step c12_s (cam_call (H 0x0174) (H 0x016b) (Some c12_pred) c12_tm c12_bad 5000 []) in
+  r1 = ok (YMatched true)
+  /\ s1 = fst (step c12_s (mkCall (BMutateRow (H 0x0174) (H 0x016b) c12_tm) 5000 []))
+  /\ s1 <> c12_s
+  /\ snd (step c12_s (mkCall (BReadRows (H 0x0174) [H 0x016b] [] (Some c12_pred) 0) 7 []))
+     = ok (YRows [mkRow (H 0x016b) [mkFam (H 0x0166) [mkCol (H 0x0171) [mkCell 1000 (H 0x0176) []]]]]).
+Proof. vm_compute. repeat split; try reflexivity. discriminate. Qed.
+
+(* not matched (absent row): the false-list is selected; it is invalid: error, state unchanged *)
+Example C12_nonvacuous_error :
+  step c12_s (cam_call (H 0x0174) (H 0x017a) (Some c12_pred) c12_tm c12_bad 5000 []) = (c12_s, fail cUnknown)
+  /\ step c12_s (cam_call (H 0x0174) (H 0x016b) (Some (FSample false)) c12_tm c12_tm 5000 [])
+     = (c12_s, fail cInvalidArgument)
+  /\ snd (step c12_s (cam_call (H 0x0174) (H 0x017a) None c12_bad c12_tm 5000 [])) = ok (YMatched false).
+Proof. vm_compute. repeat split; reflexivity. Qed.
